@@ -198,3 +198,6 @@ def run(ctx, led):
     run_rule(led, "B3", "result TABLE of next_solution", b3, ctx)
     from . import predrules
     run_rule(led, "B6", "implicit reasons imply the predicate they explain (shared with C02-U8)", predrules.implicit_reasons, ctx)
+    from . import watchrules
+    run_rule(led, "B7", "WAKE: each watcher loop of the nogood propagator looks at exactly the watchers whose predicate became true (decided on all old/new domain pairs of a 5-value universe)", watchrules.wake, ctx)
+    run_rule(led, "B8", "READD: loops that copy nogood watchers back run to the number of watchers", watchrules.readd, ctx)
